@@ -102,13 +102,22 @@ public:
   {
     DnsCacheKey key = DnsCacheKey::fromQuestion(question);
 
+    // Calculate TTL from DNS result
+    std::uint32_t ttl = calculateResultTtl(result);
+
+    // RFC 1035 3.2.1: a TTL of zero means "use for the transaction in progress only, do not cache".
+    // ExpiringCache::set() reads a custom TTL of 0 as "use the default TTL", which would serve such an
+    // answer for the whole default period.  The fresh answer also supersedes any older entry.
+    if (ttl == 0)
+    {
+      cache_->remove(key); // eviction callback keeps the current-entry counters right
+      return;
+    }
+
     // Check what type of entry exists to handle counter correctly
     auto existingEntry = cache_->get(key);
     bool hadEntry = existingEntry.has_value();
     bool hadNegativeEntry = hadEntry && existingEntry->isNegative;
-
-    // Calculate TTL from DNS result
-    std::uint32_t ttl = calculateResultTtl(result);
 
     // Store positive result
     CachedDnsResult cachedResult(result);
@@ -145,6 +154,14 @@ public:
                    const std::string &errorMessage)
   {
     DnsCacheKey key = DnsCacheKey::fromQuestion(question);
+
+    // A negative TTL of zero (e.g. SOA MINIMUM 0) means "do not cache" (RFC 2308); passing 0 on to
+    // ExpiringCache::set() would select the default TTL instead.
+    if (negativeTtl == 0)
+    {
+      cache_->remove(key);
+      return;
+    }
 
     // Check what type of entry exists to handle counter correctly
     auto existingEntry = cache_->get(key);
